@@ -1,2 +1,152 @@
-/- C06 property theorems (under construction) -/
+/-
+C06 — Every public constructor yields a valid group element.
+
+`Valid c`: the quadruple represents a point of the even subgroup 𝔾 (the image of the decaf377 group in E).
+By C01 (`valid_roundtrip`) a valid element's encoding decodes to an element equal to it.  One lemma per
+constructor: the constants, the decoders (every entry point reduces to `decode32`), the samplers (they return the
+first candidate that decodes — for EVERY stream of candidates), the affine/projective conversions, and
+`from_random_bytes` (after the repair: the double of a curve point).  The order clause ("r times it is the
+identity") is C05's `order_dvd`, proved under the hypothesis |E| = 4r (see there).
+-/
+import Decaf.Props.C07
 import Decaf.Model.Exec
+
+namespace C06
+open Model Model.Exec Edwards Decaf
+
+def Valid (c : Ext) : Prop := ∃ pt : E, ERepr c pt ∧ Point.IsEven pt
+
+variable {sr : SR}
+
+/-- what validity buys: the encoding decodes to an equal element -/
+theorem valid_roundtrip (h : SRContract sr) {c : Ext} (hv : Valid c) :
+    ∃ bytes c', Ext.encode sr c = some bytes ∧ decode32 sr bytes = .ok c' ∧ Ext.eq c c' = true ∧ Valid c' := by
+  obtain ⟨pt, hr, he⟩ := hv
+  obtain ⟨bytes, c', pt', henc, hdec, hr', hcos, heq⟩ := C01.decode_encode h hr he
+  exact ⟨bytes, c', henc, hdec, heq, pt', hr', Point.isEven_of_coset hcos he⟩
+
+/-! ### constants -/
+theorem generator_valid : Valid ⟨C17.bx, C17.by', 1, C17.bt⟩ := ⟨C04.genPoint, C04.gen_repr, C01.generator_even⟩
+theorem identity_valid : Valid Ext.identity := ⟨0, identity_repr, Point.isEven_zero⟩
+
+/-! ### decoders and samplers -/
+theorem decode_valid (h : SRContract sr) (bytes : List ℕ) {c : Ext} (hc : decode32 sr bytes = .ok c) : Valid c := by
+  obtain ⟨pt, hr, _, he, _, _⟩ := C02.decode_eq_spec h bytes hc
+  exact ⟨pt, hr, he⟩
+
+theorem decodeSlice_valid (h : SRContract sr) (bytes : List ℕ) {c : Ext} (hc : decodeSlice sr bytes = .ok c) : Valid c := by
+  unfold decodeSlice at hc
+  by_cases hl : bytes.length = 32
+  · simp only [hl, bne_self_eq_false, Bool.false_eq_true, if_false] at hc; exact decode_valid h bytes hc
+  · have : (bytes.length != 32) = true := by simpa using hl
+    simp [this] at hc
+
+/-- the rejection sampler (rand.rs): the first candidate string that decodes; whatever the RNG produces -/
+def sample (sr : SR) (candidates : List (List ℕ)) : Option Ext :=
+  candidates.findSome? (fun b => match decode32 sr b with | .ok c => some c | .error _ => none)
+
+theorem sampler_valid (h : SRContract sr) (candidates : List (List ℕ)) {c : Ext} (hc : sample sr candidates = some c) :
+    Valid c := by
+  unfold sample at hc
+  obtain ⟨b, _, hb⟩ := List.exists_of_findSome?_eq_some hc
+  cases hd : decode32 sr b with
+  | ok c' => rw [hd] at hb; injection hb with hb; subst hb; exact decode_valid h b hd
+  | error e => rw [hd] at hb; exact absurd hb (by simp)
+
+/-! ### conversions -/
+/-- `into_affine` / `From<Element> for AffinePoint` and back, `normalize_batch`, `batch_convert_to_mul_base`:
+normalisation to Z = 1 represents the same point -/
+theorem affine_roundtrip_valid {c : Ext} (hv : Valid c) : Valid (Ext.ofAffine c.affine) := by
+  obtain ⟨pt, hr, he⟩ := hv
+  have := affine_cast hr
+  exact ⟨pt, ofAffine_repr this.1 this.2, he⟩
+
+theorem elligator_valid (h : SRContract sr) (r0 : ℕ) {c : Ext} (hc : elligator sr ZETA r0 = some c) : Valid c := by
+  obtain ⟨c1, p1, h1, r1, _, hev⟩ := C07.elligator_eq_spec h r0
+  rw [hc] at h1; injection h1 with h1; subst h1
+  exact ⟨p1, r1, hev⟩
+
+/-- validity is closed under the group operations (both backends) -/
+theorem add_valid {c1 c2 : Ext} (h1 : Valid c1) (h2 : Valid c2) : Valid (Ext.addMin c1 c2) ∧ Valid (Ext.addRef c1 c2) := by
+  obtain ⟨p1, r1, e1⟩ := h1
+  obtain ⟨p2, r2, e2⟩ := h2
+  exact ⟨⟨p1 + p2, addMin_repr r1 r2, Point.isEven_add e1 e2⟩, ⟨p1 + p2, addRef_repr r1 r2, Point.isEven_add e1 e2⟩⟩
+
+theorem neg_valid {c : Ext} (h : Valid c) : Valid (Ext.neg c) := by
+  obtain ⟨p, r, e⟩ := h
+  exact ⟨-p, neg_repr r, Point.isEven_neg e⟩
+
+/-! ### from_random_bytes -/
+
+/-- arkworks' generic Tonelli–Shanks: whatever it returns is a root (it checks `x² == a` before returning) -/
+theorem sqrtTS_is_root (m s zq : ℕ) (e : List ℕ) {a x : ℕ} (h : sqrtTS m s zq e a = some (some x)) :
+    fmul m x x = a ∨ (a = 0 ∧ x = 0) := by
+  unfold sqrtTS at h
+  by_cases ha : (a == 0) = true
+  · rw [if_pos ha] at h
+    have h1 := Option.some.inj (Option.some.inj h)
+    right; exact ⟨by simpa using ha, h1.symm⟩
+  · rw [if_neg ha] at h
+    left
+    simp only [] at h
+    split at h
+    · exact absurd h (by simp)
+    · exact absurd h (by simp)
+    · rename_i x' _
+      by_cases hchk : (fmul m x' x' == a) = true
+      · rw [if_pos hchk] at h
+        have h1 := Option.some.inj (Option.some.inj h)
+        subst h1
+        simpa using hchk
+      · rw [if_neg hchk] at h; exact absurd h (by simp)
+
+theorem fqSqrt_is_root {a x : ℕ} (h : fqSqrt a = some (some x)) : fmul q x x = a ∨ (a = 0 ∧ x = 0) := by
+  unfold fqSqrt at h
+  exact sqrtTS_is_root _ _ _ _ h
+
+/-- `AffineRepr::from_random_bytes` hands out only valid elements, for every byte string -/
+theorem from_random_bytes_valid (bytes : List ℕ) {c : Ext} (hc : fromRandomBytes bytes = some c) : Valid c := by
+  unfold fromRandomBytes at hc
+  simp only [] at hc
+  set y := fqP.fromLeBytesModOrder bytes with hy
+  by_cases hden : (fsub q cA (fmul q (fsq q y) cD) == 0) = true
+  · simp [hden] at hc
+  · simp only [hden, Bool.false_eq_true, if_false] at hc
+    have hden0 : fsub q cA (fmul q (fsq q y) cD) ≠ 0 := by simpa using hden
+    have hdq : ((fsub q cA (fmul q (fsq q y) cD) : ℕ) : Fq) ≠ 0 := by
+      rwa [Ne, cast_eq_zero_iff (fsub_lt q_pos _ _)]
+    split at hc
+    · rename_i x hsq
+      injection hc with hc
+      -- x² = (1 - y²)/(a - d y²), also for the "x = 0" exit of the square root
+      have hx2 : ((x : ℕ) : Fq) * x * ((fsub q cA (fmul q (fsq q y) cD) : ℕ) : Fq) = ((fsub q 1 (fsq q y) : ℕ) : Fq) := by
+        rcases fqSqrt_is_root hsq with hroot | ⟨h0, hx0⟩
+        · have := congrArg (Nat.cast : ℕ → Fq) hroot
+          rw [cast_fmul, cast_fmul, cast_finv q_gt_two] at this
+          rw [this]; field_simp
+        · have := congrArg (Nat.cast : ℕ → Fq) h0
+          rw [cast_fmul, cast_finv q_gt_two, Nat.cast_zero] at this
+          rcases mul_eq_zero.mp this with h1 | h1
+          · exact absurd (inv_eq_zero.mp h1) hdq
+          · rw [hx0, h1, Nat.cast_zero, zero_mul, zero_mul]
+      -- the chosen sign of x does not matter
+      set x' := if x ≤ fneg q x then x else fneg q x with hx'
+      have hx'2 : ((x' : ℕ) : Fq) * x' = (x : Fq) * x := by
+        rw [hx']; split
+        · rfl
+        · rw [cast_fneg]; ring
+      have hd : params.d = (cD : Fq) := rfl
+      have hon : OnCurve params.d ((x' : ℕ) : Fq) ((y : ℕ) : Fq) := by
+        unfold OnCurve
+        rw [hd]
+        simp only [cast_fsub, cast_fmul, cast_fsq, cast_cA, Nat.cast_one] at hx2
+        have e : ((x' : ℕ) : Fq) ^ 2 = (x : Fq) * x := by rw [sq]; exact hx'2
+        rw [e]
+        linear_combination hx2
+      let pt : E := ⟨(x' : Fq), (y : Fq), hon⟩
+      have hr : ERepr (Ext.ofAffine (x', y)) pt := ofAffine_repr rfl rfl
+      rw [← hc]
+      exact ⟨pt + pt, doubleRef_repr hr, Point.isEven_double pt⟩
+    · exact absurd hc (by simp)
+
+end C06
